@@ -912,12 +912,58 @@ func fieldEstablished(p *Prog, cfg ssa.Value, at ssa.Instruction, field string, 
 		return "a store of the default to config." + field + " dominates the call", true
 	}
 	call, ok := resolve(cfg).(*ssa.Call)
+	var ctor *ssa.Function
 	if !ok {
-		return "config value is " + describeValue(cfg), false
+		// (cfg, err) := prepare(root, options, newCfg): the helper hands back what the constructor it was given (or
+		// the one it calls itself) built
+		ex, isEx := resolve(cfg).(*ssa.Extract)
+		if !isEx {
+			return "config value is " + describeValue(cfg), false
+		}
+		hc, isCall := ex.Tuple.(*ssa.Call)
+		if !isCall || hc.Common().StaticCallee() == nil || !p.InModule(hc.Common().StaticCallee()) {
+			return "config value is " + describeValue(cfg), false
+		}
+		h := hc.Common().StaticCallee()
+		var inner *ssa.Function
+		consistent := true
+		allInstrs(h, func(in ssa.Instruction) {
+			r, isRet := in.(*ssa.Return)
+			if !isRet || ex.Index >= len(rr(r)) {
+				return
+			}
+			v := rr(r)[ex.Index]
+			if isNilConst(v) {
+				return // the error return
+			}
+			c2, isC := resolve(v).(*ssa.Call)
+			if !isC {
+				consistent = false
+				return
+			}
+			var f *ssa.Function
+			if sc := c2.Common().StaticCallee(); sc != nil {
+				f = sc
+			} else if prm, isP := c2.Common().Value.(*ssa.Parameter); isP {
+				if i := paramIndex(h, prm); i >= 0 && i < len(hc.Common().Args) {
+					f, _ = hc.Common().Args[i].(*ssa.Function)
+				}
+			}
+			if f == nil || (inner != nil && inner != f) {
+				consistent = false
+				return
+			}
+			inner = f
+		})
+		if !consistent || inner == nil {
+			return "config value is " + describeValue(cfg), false
+		}
+		ctor = inner
+	} else {
+		ctor = call.Common().StaticCallee()
 	}
-	ctor := call.Common().StaticCallee()
 	if ctor == nil || !p.InModule(ctor) {
-		return "config comes from " + calleeString(call.Common()), false
+		return "config comes from a constructor outside the module", false
 	}
 	// in ctor: every return is dominated by a store of k to field of the returned object, and after that
 	// store no call receives the object (options could overwrite it)
